@@ -1,7 +1,21 @@
 """C18 helpers: generator of Plutus data / typed class descriptions and values, an independent Python
 reference encoder (only used to produce the bytes fed to the decode routes; every case re-checks it against
 Coq's plutus_ref), and printers of Coq literals for coq/theories/PlutusOracle.v."""
-from lib.common import cz, cn, cnat, chx, cbool, cstr, clist, cpair
+from lib.common import cz, cn, cnat, cbool, cstr, clist, cpair
+from lib.common import chx as _chx
+
+# byte-string literals of one case are shared through let-bindings (the same bytes recur on most routes;
+# elaborating long string literals dominates the cost of a cases file)
+_POOL = None
+
+
+def chx(b):
+    b = bytes(b)
+    if _POOL is None or len(b) < 6:
+        return _chx(b)
+    if b not in _POOL:
+        _POOL[b] = f'b{len(_POOL)}_'
+    return _POOL[b]
 
 HEADER = '''From Coq Require Import ZArith NArith List String.
 From PyC Require Import Base Cbor Plutus PlutusOracle.
@@ -433,6 +447,17 @@ def c_obs(routes, res):
 
 
 def c_case(case, res):
+    global _POOL
+    _POOL = {}
+    try:
+        body = c_case0(case, res)
+        lets = ''.join(f'let {name} := {_chx(b)} in ' for b, name in _POOL.items())
+    finally:
+        _POOL = None
+    return f'({lets}{body})' if lets else body
+
+
+def c_case0(case, res):
     k = case['kind']
     if k == 'raw':
         return f'(CRaw {c_data(case["d"])} {chx(bytes.fromhex(case["ref"]))} {c_obs(RAW_ROUTES, res)})'
